@@ -1534,6 +1534,10 @@ class FunctionNode(AstNode):
         # XXX - waring about unused fields in attrs
 
         fmt_func = self.fmtdict
+        if ast.attrs["name"] is not None and not isinstance(
+                ast.attrs["name"], str):
+            raise RuntimeError(
+                "name attribute must have a string value: {}".format(decl))
         fmt_func.function_name = ast.name
         fmt_func.underscore_name = util.un_camel(fmt_func.function_name)
 
